@@ -204,47 +204,64 @@ structure LSt where
   orig : Option Orig
 deriving Repr, Inhabited
 
+def reOf (st : RSt) : Nat := st.re.getD 0
+
+/-- "Emit chunk until replacement" (replace_source.rs:477-519) -/
+def rBefore (chunk : Text) (line : Int) (r : Repl) (st : RSt) (l : LSt) : RSt × LSt × List Ev :=
+  if r.start > st.pos then
+    let offset := r.start - st.pos
+    let slice := bsub chunk l.chunkPos (l.chunkPos + offset)
+    let ev := Ev.chunk (some slice) ⟨u32 line, gcolOf st line l.gc, mapName st.nim l.orig⟩
+    ({ st with pos := r.start },
+     { chunkPos := l.chunkPos + offset, gc := l.gc + offset, orig := advOrig st.contents l.orig slice slice.length }, [ev])
+  else (st, l, [])
+
+/-- the name carried by the first line of the replacement content (replace_source.rs:529-545, fix F7) -/
+def rName (r : Repl) (st1 : RSt) (l1 : LSt) : RSt × List Ev × Option Nat :=
+  match r.name, l1.orig with
+  | some nm, some _ =>
+    let g := globalName st1.nameMapping nm
+    ({ st1 with nameMapping := g.1 }, g.2.1, some g.2.2)
+  | _, _ => (st1, [], (l1.orig.bind (·.name)).bind fun n => st1.nim[n]?)
+
+/-- how one iteration of the `while let` loop ends -/
+inductive RNext where
+  | done (st : RSt)                 -- "Skip over whole chunk": the callback returns
+  | cont (st : RSt) (l : LSt)       -- next iteration
+deriving Inhabited
+
+/-- one iteration of the `while let Some(next_replacement_pos)` loop for the replacement `r` (its start lies
+before the end of the chunk); `rs` = the replacements after it -/
+def rIter (chunk : Text) (gl endPos : Nat) (r : Repl) (rs : List Repl) (st : RSt) (l : LSt) : List Ev × RNext :=
+  let line : Int := (gl : Int) + st.lineOff
+  let b := rBefore chunk line r st l
+  let n := rName r b.1 b.2.1
+  let c := emitContent b.2.1.gc b.2.1.orig (splitLines r.content) n.2.2 n.1 line
+  let re' : Nat := max (reOf c.1) r.stop
+  let st4 := { c.1 with re := some re', rest := rs }
+  let offset : Int := (chunk.length : Int) - endPos + re' - b.2.1.chunkPos
+  let evs := b.2.2 ++ n.2.1 ++ c.2.1
+  if offset > 0 then
+    if re' ≥ endPos then
+      (evs, .done (skipWhole st4 chunk gl b.2.1.gc (chunk.length - b.2.1.chunkPos) endPos))
+    else
+      let off := offset.toNat
+      let line2 : Int := (gl : Int) + st4.lineOff
+      let skipped := bsub chunk b.2.1.chunkPos (b.2.1.chunkPos + off)
+      let l2 : LSt := { chunkPos := b.2.1.chunkPos + off, gc := b.2.1.gc + off, orig := advOrig st4.contents b.2.1.orig skipped off }
+      (evs, .cont (colShift { st4 with pos := st4.pos + off } line2 offset) l2)
+  else (evs, .cont st4 b.2.1)
+
 /-- the `while let Some(next_replacement_pos)` loop; `none` in the last component = returned early -/
 def rLoop (chunk : Text) (gl endPos : Nat) : List Repl → RSt → LSt → RSt × List Ev × Option LSt
   | [], st, l => ({ st with rest := [] }, [], some l)
   | r :: rs, st, l =>
     if r.start < endPos then
-      let line : Int := (gl : Int) + st.lineOff
-      -- emit chunk until replacement
-      let (st1, l1, ev1) : RSt × LSt × List Ev :=
-        if r.start > st.pos then
-          let offset := r.start - st.pos
-          let slice := bsub chunk l.chunkPos (l.chunkPos + offset)
-          let ev := Ev.chunk (some slice) ⟨u32 line, gcolOf st line l.gc, mapName st.nim l.orig⟩
-          ({ st with pos := r.start },
-           { chunkPos := l.chunkPos + offset, gc := l.gc + offset, orig := advOrig st.contents l.orig slice slice.length }, [ev])
-        else (st, l, [])
-      -- replacement name
-      let nameIdx0 : Option Nat := (l1.orig.bind (·.name)).bind fun n => st1.nim[n]?    -- fix F7
-      let (st2, evN, nameIdx) : RSt × List Ev × Option Nat :=
-        match r.name, l1.orig with
-        | some nm, some _ =>
-          let (m, evs, g) := globalName st1.nameMapping nm
-          ({ st1 with nameMapping := m }, evs, some g)
-        | _, _ => (st1, [], nameIdx0)
-      let (st3, evC, _) := emitContent l1.gc l1.orig (splitLines r.content) nameIdx st2 line
-      let re' : Nat := match st3.re with | some e => max e r.stop | none => r.stop
-      let st4 := { st3 with re := some re', rest := rs }
-      let offset : Int := (chunk.length : Int) - endPos + re' - l1.chunkPos
-      if offset > 0 then
-        if re' ≥ endPos then
-          (skipWhole st4 chunk gl l1.gc (chunk.length - l1.chunkPos) endPos, ev1 ++ evN ++ evC, none)
-        else
-          let off := offset.toNat
-          let line2 : Int := (gl : Int) + st4.lineOff
-          let skipped := bsub chunk l1.chunkPos (l1.chunkPos + off)
-          let l2 : LSt := { chunkPos := l1.chunkPos + off, gc := l1.gc + off, orig := advOrig st4.contents l1.orig skipped off }
-          let st5 := colShift { st4 with pos := st4.pos + off } line2 offset
-          let r' := rLoop chunk gl endPos rs st5 l2
-          (r'.1, ev1 ++ evN ++ evC ++ r'.2.1, r'.2.2)
-      else
-        let r' := rLoop chunk gl endPos rs st4 l1
-        (r'.1, ev1 ++ evN ++ evC ++ r'.2.1, r'.2.2)
+      match rIter chunk gl endPos r rs st l with
+      | (evs, .done st') => (st', evs, none)
+      | (evs, .cont st' l') =>
+        let r' := rLoop chunk gl endPos rs st' l'
+        (r'.1, evs ++ r'.2.1, r'.2.2)
     else ({ st with rest := r :: rs }, [], some l)
 
 /-- the `on_chunk` closure -/
